@@ -95,6 +95,10 @@ func (o UnmarshalOptions) unmarshal(b []byte, m protoreflect.Message) (out proto
 		Reset(m.Interface())
 	}
 	allowPartial := o.AllowPartial
+	// The initialized flag reported by a fast-path unmarshaler speaks about
+	// the decoded input only. When merging into existing content, required
+	// fields may be missing in what the message held before.
+	merging := o.Merge
 	o.Merge = true
 	o.AllowPartial = true
 	methods := protoMethods(m)
@@ -129,7 +133,7 @@ func (o UnmarshalOptions) unmarshal(b []byte, m protoreflect.Message) (out proto
 	if err != nil {
 		return out, err
 	}
-	if allowPartial || (out.Flags&protoiface.UnmarshalInitialized != 0) {
+	if allowPartial || (out.Flags&protoiface.UnmarshalInitialized != 0 && !merging) {
 		return out, nil
 	}
 	return out, checkInitialized(m)
